@@ -716,6 +716,45 @@ class Fn:
         else:
             raise ValueError('stmt anchor: before|after expected')
 
+    def exits(self):
+        """`break` / `return` expressions in the body, in order of appearance: (start, end) spans of the expression
+        (up to the `;`, `,` or closing bracket that ends it)."""
+        res = []
+        for m in re.finditer(r"(?<![\w.'])(break|return)\b", self.mask[:self.body_close]):
+            if m.start() <= self.body_open:
+                continue
+            p = b = k = 0
+            e = m.end()
+            while e < self.body_close:
+                ch = self.mask[e]
+                if ch in '({[':
+                    p, b, k = p + (ch == '('), b + (ch == '{'), k + (ch == '[')
+                elif ch in ')}]':
+                    if (ch == ')' and p == 0) or (ch == '}' and b == 0) or (ch == ']' and k == 0):
+                        break
+                    p, b, k = p - (ch == ')'), b - (ch == '}'), k - (ch == ']')
+                elif ch in ';,' and p == 0 and b == 0 and k == 0:
+                    break
+                e += 1
+            while e > m.end() and self.mask[e - 1].isspace():
+                e -= 1
+            res.append((m.start(), e))
+        return res
+
+    def exit_anchor(self, nm, prefix, text):
+        """Structural anchor: the n-th of exactly m `break` / `return` expressions of the function.  The expression E becomes
+        the block `{ <ghost text> E }` (same value and control flow; a block is allowed wherever the expression was:
+        statement, match arm, tail).  A different count or another expression text is a lost anchor."""
+        n, m = (int(x) for x in nm.split('/'))
+        ex = self.exits()
+        if len(ex) != m:
+            raise LostAnchor('%s: %d break/return expressions, overlay expects %d' % (self.name, len(ex), m))
+        a, b = ex[n - 1]
+        got = ' '.join(self.text[a:b].split())
+        if prefix and got != ' '.join(prefix.split()):
+            raise LostAnchor('%s: exit %d is %r, overlay expects %r' % (self.name, n, got, prefix))
+        self.replace(a, b, '{\n' + text.rstrip() + '\n' + self.text[a:b] + ' }')
+
     def loop_pre(self, k, text):
         l = self.loop(k)
         self.insert(self.stmt_start_before(l['kw_pos']), text.rstrip() + '\n', order=5)
